@@ -205,6 +205,28 @@ fn library(ctx: &Ctx, rep: &mut Report) {
                     // valid FEN with whitespace/field mutations only
                     let p = gen::sample(&mut rng);
                     let mut t = p.fen();
+                    // field-count variants of an otherwise valid record: only the first k fields (EPD-like records
+                    // without counters, records cut after any field), a field doubled, two fields swapped
+                    match rng.gen_range(0..6) {
+                        0 | 1 => {
+                            let f: Vec<&str> = t.split(' ').collect();
+                            let k = rng.gen_range(1..=5);
+                            t = f[..k].join(" ");
+                        }
+                        2 => {
+                            let mut f: Vec<&str> = t.split(' ').collect();
+                            let i = rng.gen_range(0..f.len());
+                            f.insert(i, f[i]);
+                            t = f.join(" ");
+                        }
+                        3 => {
+                            let mut f: Vec<&str> = t.split(' ').collect();
+                            let (i, j) = (rng.gen_range(0..f.len()), rng.gen_range(0..f.len()));
+                            f.swap(i, j);
+                            t = f.join(" ");
+                        }
+                        _ => {}
+                    }
                     if rng.gen_bool(0.5) {
                         t = t.replace(' ', ["  ", "\t", " \u{00A0}"][rng.gen_range(0..3)]);
                     }
@@ -330,7 +352,17 @@ pub fn hostile_line(rng: &mut gen::R) -> (String, bool) {
         0 => (random_text(rng).replace(['\n', '\r'], " ").chars().take(5000).collect(), false),
         1 => (format!("position startpos moves {}", tok(rng)), true),
         2 => (format!("position startpos moves e2e4 {} e7e5", tok(rng)), true),
-        3 => (format!("position fen {}", grammar_fen(rng).replace(['\n', '\r'], " ")), true),
+        3 => {
+            if rng.gen_bool(0.35) {
+                // an otherwise valid record cut after its first k fields (EPD-like), sometimes followed by moves
+                let t = gen::sample(rng).fen();
+                let f: Vec<&str> = t.split(' ').collect();
+                let k = rng.gen_range(1..=5);
+                (format!("position fen {}{}", f[..k].join(" "), if rng.gen_bool(0.3) { " moves e2e4" } else { "" }), true)
+            } else {
+                (format!("position fen {}", grammar_fen(rng).replace(['\n', '\r'], " ")), true)
+            }
+        }
         4 => (format!("position fen {} moves {}", grammar_fen(rng).replace(['\n', '\r'], " "), tok(rng)), true),
         5 => (format!("go depth {}", ["-1", "0", "18446744073709551615", "99999999999999999999999", "x", "", "1.5", "١"][rng.gen_range(0..8)]), false),
         6 => (format!("go movetime {}", ["-5", "-1", "-2147483648", "2147483647", "99999999999999999999", "abc", "", "2147483648", "0"][rng.gen_range(0..9)]), false),
